@@ -97,8 +97,8 @@ PROPS = {
     },
     "C07": {
         "n_quick": 1500, "n_thorough": 37500,
-        "technique": 'Coq (total functional model) + hostile-input correspondence under recover()',
-        "level_text": 'proof (partial): C07_one_outcome / C07_unknown_method_not_found / C07_path_has_segments about the total model of ServeHTTP; the byte-index arithmetic of tree.go is not modelled - that no slice expression panics is observed, not proved',
+        "technique": 'Coq proof (refinement of an index-level transcription of the matcher, whose slice expressions can fail, to the segment-level matcher) + hostile-input correspondence under recover()',
+        "level_text": 'proof: C07_matcher_never_panics / C07_index_matcher_refines - the matcher written over the path and a byte index exactly as tree.go and leaf.go do (path[next:], path[next:next+i], next+i+1, path[next-1:], the match-all loop), with out-of-range slices modelled as a panic value, never panics for any tree and any byte string and returns what the segment-level matcher returns on the split path; C07_one_outcome / C07_unknown_method_not_found / C07_path_has_segments about the total model of ServeHTTP; that the transcription is faithful is tied by the hostile stream (arbitrary bytes as path, arbitrary method tokens) under recover()',
         "level_note": 'trusts Coq kernel, extraction, glue; segment-level model; Go regexp is modelled for a fragment (literals, classes, ., concatenation, alternation, greedy * + ? with non-nullable bodies, groups); regex subjects are ASCII; inner groups are non-capturing in the model',
         "rule": 'random registration/Headers/request histories: 1-7 registrations from a collision-rich segment pool (statics incl. regex metacharacters, placeholders, regex segments with several binds / inner groups / random regex ASTs, match-all with capture 1|2|-1|3x, optional last segment, trailing slash), methods GET/other/Any/lower-case, ~8% ill-formed registrations; requests = instances of registered routes (regex parts sampled from the AST), perturbed instances, random segment strings; a third of the requests use hostile paths (empty, slash runs, arbitrary bytes, malformed %-escapes, non-UTF-8, long) and odd method tokens. After a rejected registration the run continues on an instance rebuilt from the accepted operations (AddRoute is not atomic, F11). Non-trivial: unknown method or a path with bytes outside printable ASCII.',
         "what": 'every request served twice under recover(): no panic, exactly one chain (counter in the first middleware), same outcome; outcome vs model',
@@ -107,7 +107,7 @@ PROPS = {
     "C08": {
         "n_quick": 1500, "n_thorough": 37500,
         "technique": 'Coq proof (acceptance characterised on the tree: both directions, by induction over AddRoute and by the uniqueness/no-clash invariants of key-carrying paths) + declarative validity predicate + correspondence on accept/reject',
-        "level_text": "proof: C08_accept_iff - on every tree registration can have built, a route is accepted iff every segment classifies in the context of its own earlier segments (expressions compile, no bind reused, no inner empty segment, no second match-all before the end), no non-final segment is optional, and none of its forms has the segment texts of a registered path or a different match-all where a registered path has one in the same role; C08_invariants_preserved (wfo, live, exact key paths added), C08_accepted_reachable (whatever a form of an accepted route admits is dispatched); the same conditions stated on the list of routes (RouteSpec.valid) judge the implementation's accept/reject on every generated registration",
+        "level_text": "proof: C08_accept_iff - on every tree registration can have built, a route is accepted iff every segment classifies in the context of its own earlier segments (expressions compile, no bind reused, no inner empty segment, no second match-all before the end), no non-final segment is optional, and none of its forms has the segment texts of a registered path or a different match-all where a registered path has one in the same role; C08_invariants_preserved (wfo, live, exact key paths added), C08_accepted_reachable (whatever a form of an accepted route admits is dispatched); C08_accept_iff_valid: for every list of accepted registrations the registration is accepted iff RouteSpec.valid - the same conditions stated on the list of routes, which is the executable judge applied to the accept/reject of the implementation on every generated registration",
         "level_note": 'trusts Coq kernel, extraction, glue; regexp.Compile is an oracle (compile : src -> option re) supplied per case',
         "rule": 'random registration/Headers/request histories: 1-7 registrations from a collision-rich segment pool (statics incl. regex metacharacters, placeholders, regex segments with several binds / inner groups / random regex ASTs, match-all with capture 1|2|-1|3x, optional last segment, trailing slash), methods GET/other/Any/lower-case, ~8% ill-formed registrations; requests = instances of registered routes (regex parts sampled from the AST), perturbed instances, random segment strings; a third of the registrations ill-formed (each rejection cause), unknown methods. After a rejected registration the run continues on an instance rebuilt from the accepted operations (AddRoute is not atomic, F11). Non-trivial: a registration the validity spec rejects.',
         "what": 'accept/reject of every registration vs model and vs the declarative predicate RouteSpec.valid on the list of accepted routes',
